@@ -1,13 +1,46 @@
-"""C15 numerics (FixedZoomPyramid.disparity_range on symbolic maps) -- filled in later."""
+"""C15 numerics: the real FixedZoomPyramid.disparity_range on symbolic coarse maps (vf.harness.c15)."""
+MOD = 'vf.harness.c15'
 
 
 def numerics(ctx):
-    return []
+    cap = 60 if ctx.quick else 300
+    J = []
+    cfgs = [dict(R=4, C=4, sym_mask=5, marge=1), dict(R=3, C=5, sym_mask=5, marge=0, seed=1), dict(R=4, C=4, sym_mask=4, marge=2, user='grid', seed=2),
+            dict(R=5, C=5, ws=5, sym_mask=4, marge=1, seed=3), dict(R=4, C=3, sf=3, sym_mask=4, marge=1, dmin=-2, dmax=2, seed=4)]
+    if not ctx.quick:
+        cfgs += [dict(R=5, C=5, sym_mask=8, marge=1, seed=5), dict(R=4, C=6, sym_mask=8, marge=3, seed=6, user='grid'),
+                 dict(R=6, C=6, ws=5, sym_mask=6, marge=1, seed=7), dict(R=4, C=4, sf=4, sym_mask=5, marge=1, seed=8), dict(R=3, C=3, ws=1, sym_mask=6, marge=0, seed=9)]
+    for kw in cfgs:
+        J.append({'mod': MOD, 'fn': 'disparity_range', 'mode': 'sym', 'args': dict(kw, cap=cap)})
+    # "the input datasets are not modified": image preparation of the pyramid (shared with C18)
+    for b in (0, 2):
+        J.append({'mod': 'vf.harness.c18', 'fn': 'inputs_untouched', 'mode': 'sym', 'args': {'bands': b, 'cap': cap}})
+    cexs = []
+    for r in ctx.run_jobs(J, timeout=1500 if ctx.quick else 7200):
+        for cx in ctx.absorb(r):
+            cx['harness'] = 'c15.disparity_range' if r['job']['mod'] == MOD else 'c18.inputs_untouched'
+            cexs.append(cx)
+    ctx.cov['explanation_numerics'] = ('numerics: the real FixedZoomPyramid.disparity_range with mask_invalid_disparities, sliding_window, the 100-pixel chunk '
+                                       'loop and scipy zoom(order=0, modelled as the index permutation the real zoom produces) on a symbolic coarse '
+                                       'disparity map and partly symbolic validity mask: every fine pixel searches [min - marge, max + marge] of the valid '
+                                       'disparities in the window of a coarse pixel at most one pixel from its geometric parent, or the whole user '
+                                       'interval when that pixel is invalid / on the border; shapes; the coarse products are not modified')
+    ctx.assumptions += ['C15 numerics: coarse maps up to 6x6, window 1/3/5, scale factor 2-4, marge 0-3; coarse disparities multiples of 1/4 inside the user '
+                        'interval; validity masks symbolic on 4-8 pixels (all 12 bits), concrete pseudo-random elsewhere; pyramid_gaussian (skimage) not modelled']
+    return cexs
 
 
 def replay_cex(ctx, cexs):
-    return
+    ctx.replay_all([c for c in cexs if c['harness'].startswith('c15')], MOD, 'replay')
+    ctx.replay_all([c for c in cexs if c['harness'].startswith('c18')], 'vf.harness.c18', 'replay')
 
 
 def replay(body):
-    return 0
+    from vf.common import Ctx
+    import json, shutil
+    ctx = Ctx('C15', 'quick', 0)
+    mod = 'vf.harness.c18' if body['cex'].get('harness', '').startswith('c18') else MOD
+    r = ctx.run_job({'mod': mod, 'fn': 'replay', 'mode': 'plain', 'args': {'cex': body['cex']}}, 900)
+    print(json.dumps({k: v for k, v in r.items() if k != 'job'}, indent=1))
+    shutil.rmtree(ctx.scratch, ignore_errors=True)
+    return 1 if r.get('violates') else 0
